@@ -8,7 +8,53 @@ import (
 
 // rangeIndexInc returns the header instruction  k1 = k + 1  of a `for range` loop over a
 // slice/array/int (nil if the loop does not have that shape).
-func (vc *VC) rangeIndexInc(li *LoopInfo) *ssa.BinOp {
+func (vc *VC) rangeIndexInc(li *LoopInfo) ssa.Value {
+	if v := vc.rangeIntIndex(li); v != nil {
+		return v
+	}
+	if b := vc.rangeSliceIndexInc(li); b != nil {
+		return b
+	}
+	return nil
+}
+
+// rangeIntIndex recognises the shape go/ssa emits for `for i := range n` over an integer:
+//   header:  k = phi [0 (entry), k1 (back edge)]; if k < n goto body else done      post:  k1 = k + 1
+// The index the next iteration looks at is k itself.
+func (vc *VC) rangeIntIndex(li *LoopInfo) ssa.Value {
+	// `for i := range n` over an integer is emitted rotated: the header is the body block,
+	//   k = phi [0 (entry, guarded by 0 < n), k1 (back edge)] #rangeint.iter;  ...;  k1 = k + 1;  if k1 < n goto header
+	// The index the iteration at the marker looks at is k itself.
+	for _, in := range li.header.Instrs {
+		phi, ok := in.(*ssa.Phi)
+		if !ok {
+			break
+		}
+		if phi.Comment != "rangeint.iter" {
+			continue
+		}
+		okShape := true
+		for i, p := range li.header.Preds {
+			e := phi.Edges[i]
+			if vc.isBackEdge(p, li.header) {
+				inc, ok := e.(*ssa.BinOp)
+				if !ok || inc.Op != token.ADD || inc.X != ssa.Value(phi) {
+					okShape = false
+				} else if c, ok := inc.Y.(*ssa.Const); !ok || c.Value == nil || c.Int64() != 1 {
+					okShape = false
+				}
+			} else if c, ok := e.(*ssa.Const); !ok || c.Value == nil || c.Int64() != 0 {
+				okShape = false
+			}
+		}
+		if okShape {
+			return phi
+		}
+	}
+	return nil
+}
+
+func (vc *VC) rangeSliceIndexInc(li *LoopInfo) *ssa.BinOp {
 	for _, in := range li.header.Instrs {
 		phi, ok := in.(*ssa.Phi)
 		if !ok {
